@@ -40,6 +40,8 @@ DEFAULT_OPTS = {
     "exec": True,
     "binary": True,
     "retype": True,
+    "retype_to_dir": True,
+    "rename_full_dirs": True,
     "swap": True,
     "odd_names": False,
     "big": True,
@@ -298,6 +300,8 @@ def gen_spec(rng, mh, rid, parents, ts, opts, nchanges=None, merge_tree=None):
             new = free_name()
             if new is None or inside(p, new) or any(inside(p, t) for t in touched):
                 continue
+            if not o["rename_full_dirs"] and any(q != p and inside(p, q) for q in tree):
+                continue
             do(["rename", p, new])
             touched.update((p, new))
             if tree[new][1] == FILE and rng.random() < 0.3:
@@ -316,8 +320,10 @@ def gen_spec(rng, mh, rid, parents, ts, opts, nchanges=None, merge_tree=None):
             if not cand:
                 continue
             p = rng.choice(cand)
-            kinds = [FILE, DIR] + ([LINK] if o["symlinks"] else [])
+            kinds = [FILE] + ([DIR] if o["retype_to_dir"] else []) + ([LINK] if o["symlinks"] else [])
             kinds.remove(tree[p][1]) if tree[p][1] in kinds else None
+            if not kinds:
+                continue
             nk = rng.choice(kinds)
             if nk == FILE:
                 do(["retype", p, FILE, _text(rng, mh, o), bool(o["exec"] and rng.random() < 0.3)])
